@@ -15,7 +15,8 @@ checks, na, engines = [], [], {}
 for p in props:
     pid = p["id"]
     path = os.path.join(HERE, "props", pid.lower() + ".py")
-    if not os.path.exists(path) or pid in na_reasons:
+    ready = os.path.exists(path) and "\nREADY = True" in open(path).read()
+    if not ready or pid in na_reasons:
         na.append({"property_id": pid, "reason": na_reasons.get(pid, "check not built yet (see DESIGN.md section 5 for the plan)")})
         continue
     m = importlib.import_module("props." + pid.lower())
